@@ -93,6 +93,12 @@ def build_special(g, kind, flag, special):
                   same shape and Frobenius norm, the left inverses differ."""
     c = qobj.csys("qubit")
     what, k = special.split(":"); k = int(k)
+    if what == "nearpure":
+        povms = [unsharp_povm(c, ax, 1.0) for ax in AXES_SETS[2]]          # first tester: Z
+        qt = StandardQst(povms, on_para_eq_constraint=flag)
+        delta = [1e-5, 1e-7][k % 2]
+        true = qobj.State(c, qobj.vec_of(c, (np.eye(2) + (1 - delta) * _axis_mat((0, 0, 1))) / 2), on_para_eq_constraint=flag)
+        return qt, true, {"povms": povms}
     if what == "axes":
         povms = [unsharp_povm(c, ax, 1.0) for ax in AXES_SETS[k]]
         qt = StandardQst(povms, on_para_eq_constraint=flag)
@@ -577,9 +583,11 @@ def check_qt(ctx, kind, flag, m, mo, boundary, salt, nmax, joint=False, counts=N
     W = Ap @ Vtot @ Ap.T
     J, _ = jacobian_stacked(qt)
     ref_var, ref_qop = np.trace(W), np.trace(J @ W @ J.T)
-    if not close(mse_var, ref_var, 1e-7):
+    # calc_left_inv goes through pinv(A^T A): its rounding error grows with cond(A)^2 (ill-conditioned random tester sets)
+    tol_lin = max(1e-7, 1e-13 * float(np.linalg.cond(A)) ** 2)
+    if not close(mse_var, ref_var, tol_lin):
         _viol(ctx, f"C19/mse_linear/var/{tag}", f"analytical {mse_var} vs exact E||v^-v||^2 = {ref_var}", rep)
-    if not close(mse_qop, ref_qop, 1e-7):
+    if not close(mse_qop, ref_qop, tol_lin):
         _viol(ctx, f"C19/mse_linear/qoperation/{tag}",
               f"analytical {mse_qop} vs exact E||stacked(v^)-stacked(v)||^2 = {ref_qop} (var-mode value {ref_var})", rep)
     # (4) scaling in n
@@ -643,7 +651,7 @@ def check_qt(ctx, kind, flag, m, mo, boundary, salt, nmax, joint=False, counts=N
         return
     Fi = np.linalg.inv(Ft_ref)
     crb_var, crb_obj = np.trace(Fi) / Ntot, np.trace(J @ Fi @ J.T) / Ntot
-    if not close(crb, crb_obj, 1e-6):
+    if not close(crb, crb_obj, max(1e-6, 1e-12 * float(np.linalg.cond(Ft_ref)))):
         _viol(ctx, f"C19/crb/{tag}", f"Cramér–Rao bound {crb}: object parametrisation tr(J F^-1 J^T)/N = {crb_obj}, "
               f"variable parametrisation tr(F^-1)/N = {crb_var}", rep)
     # Cramér–Rao inequality for the unbiased linear estimate (N-independent form)
@@ -667,6 +675,18 @@ def check_helpers(ctx, salt, n):
             if not np.allclose(fn(p, nn), C, atol=1e-12):
                 _viol(ctx, f"C19/{name}", f"p={p.tolist()} n={nn}: differs from the enumerated covariance by {np.abs(fn(p, nn) - C).max():.3e}",
                       {**rep, "p": p.tolist(), "nn": nn})
+        # nearly deterministic distributions: exact rational reference, relative tolerance
+        from fractions import Fraction as Fr
+        for delta in (1e-5, 1e-7, 1e-9):
+            for pn in (np.array([1 - delta, delta]), np.array([delta / 4, 1 - delta, 3 * delta / 4])):
+                pf = [Fr(float(x)) for x in pn]
+                ref = np.array([[float(((pf[i] if i == j else 0) - pf[i] * pf[j]) / nn) for j in range(len(pf))] for i in range(len(pf))])
+                for name, fn in (("matrix_util.calc_covariance_mat", mu.calc_covariance_mat),
+                                 ("data_analysis.calc_covariance_matrix_of_prob_dist", da.calc_covariance_matrix_of_prob_dist)):
+                    got = fn(pn, nn)
+                    if not np.allclose(got, ref, rtol=1e-6, atol=1e-9 * np.abs(ref).max()):
+                        _viol(ctx, f"C19/{name}/nearly-deterministic", f"p={pn.tolist()} n={nn}: covariance {got.tolist()} vs exact {ref.tolist()}",
+                              {**rep, "p": pn.tolist(), "nn": nn})
         ks = [int(g.integers(1, 5)) for _ in range(int(g.integers(1, 5)))]
         blocks = [g.standard_normal((k, k)) for k in ks]
         if not np.array_equal(mu.calc_direct_sum(blocks), block_diag(blocks)):
@@ -736,8 +756,12 @@ def check_helpers(ctx, salt, n):
         if not np.allclose(mu.calc_fisher_matrix(pp, grads), Fref, rtol=1e-9):
             _viol(ctx, "C19/matrix_util.calc_fisher_matrix", "sum_x g g^T / p", rep)
         # clipping of small probabilities: mass is moved, not created (|sum change| <= clipped mass), uniform shift
-        eps = 1e-3
-        pc = pp.copy(); pc[int(g.integers(0, m))] = 1e-5; pc /= pc.sum()
+        eps = [1e-3, 1e-2][t % 2]
+        pc = np.clip(pp.copy(), 0.05, None)
+        ksmall = [int(x) for x in g.permutation(m)[:(2 if m >= 3 else 1) + (1 if m >= 5 and t % 3 == 0 else 0)]]
+        for kk, val in zip(ksmall, (1e-5, 3e-4, 2e-6)):
+            pc[kk] = val                                   # several outcomes below eps in one distribution
+        pc /= pc.sum()
         small = pc < eps
         r = mu.replace_prob_dist(pc, eps)
         shift = r[~small] - pc[~small]
@@ -762,6 +786,21 @@ def check_helpers(ctx, salt, n):
         except ValueError as e:
             sig = "C19/matrix_util.calc_fisher_matrix_total/size" if nv != m else "C19/matrix_util.calc_fisher_matrix_total/raises"
             _viol(ctx, sig, f"{m} outcomes, {nv} variables: {e}", repf)
+        # non-default eps with probabilities below it: total == sum_j w_j * single(p_j, grads_j, eps)
+        eps2 = 1e-2
+        pss2 = []
+        for ps_ in pss:
+            pz = np.clip(ps_.copy(), 0.05, None); pz[int(g.integers(0, m))] = 1e-4; pss2.append(pz / pz.sum())
+        try:
+            tot2 = mu.calc_fisher_matrix_total(pss2, gss, ws, eps=eps2)
+            ref2 = sum(w * mu.calc_fisher_matrix(ps_, gs, eps=eps2) for w, ps_, gs in zip(ws, pss2, gss))
+            rr2 = [np.where(ps_ < eps2, eps2, ps_ - eps2 * (ps_ < eps2).sum() / (m - (ps_ < eps2).sum())) for ps_ in pss2]
+            ref3 = sum(w * sum(np.outer(gx, gx) / px for gx, px in zip(gs, r_)) for w, gs, r_ in zip(ws, gss, rr2))
+            if tot2.shape == ref2.shape and (not np.allclose(tot2, ref2, rtol=1e-9) or not np.allclose(tot2, ref3, rtol=1e-9)):
+                _viol(ctx, "C19/matrix_util.calc_fisher_matrix_total/eps", f"eps={eps2} with probabilities below it: total differs from "
+                      f"sum_j w_j F_j(eps) by {np.abs(tot2 - ref2).max():.3e}", rep)
+        except ValueError:
+            pass    # shape defects are reported above
         for wbad, what in ((ws[:-1], "one weight too few"), (ws + [1.0], "one weight too many")):
             try:
                 mu.calc_fisher_matrix_total(pss, gss, wbad)
@@ -808,6 +847,19 @@ def check_helpers(ctx, salt, n):
                       {"kind": "helpers", "salt": salt, "n": n})
 
 
+def guarded(ctx, fn, *args, **kw):
+    """run one oracle group; an unexpected exception raised by the real code is a violation (…/raises), not a crash"""
+    import traceback
+    try:
+        return fn(*args, **kw)
+    except Exception as e:  # noqa
+        frames = [f for f in traceback.extract_tb(e.__traceback__) if "quara" in f.filename.replace("\\", "/").split("/harness/")[-1] and "/harness/" not in f.filename]
+        where = (frames[-1].name if frames else fn.__name__)
+        mod = (frames[-1].filename.split("/")[-1][:-3] if frames else "harness")
+        ctx.violate(f"C19/{mod}.{where}/raises", f"{type(e).__name__}: {e} (inside {fn.__name__}{tuple(a for a in args[1:] if isinstance(a, (str, int, bool)))})",
+                    {"kind": "guarded", "fn": fn.__name__, "args": [a for a in args[1:] if isinstance(a, (str, int, bool, type(None)))], "kw": {k: v for k, v in kw.items() if isinstance(v, (str, int, bool, type(None), list))}})
+
+
 def oracle(ctx, volume=1):
     quick = ctx.quick and volume == 1
     nmax = 5 if quick else 8
@@ -827,34 +879,38 @@ def oracle(ctx, volume=1):
     for (kind, flag, m, mo, boundary, joint) in confs:
         salt += 1
         ctx.count(f"oracle {kind} flag={flag}")
-        check_qt(ctx, kind, flag, m, mo, boundary, salt, 2 if joint else nmax, joint=joint)
+        guarded(ctx, check_qt, ctx, kind, flag, m, mo, boundary, salt, 2 if joint else nmax, joint=joint)
     # boundary true objects with a deterministic NON-LAST schedule (zero covariance block first / in the middle)
     for kind in ("qst", "povmt"):
         for flag in (True, False):
             for k in (0, 1) if kind == "qst" else (0, 2):
                 salt += 1
                 ctx.count(f"oracle deterministic schedule {kind} k={k}")
-                check_qt(ctx, kind, flag, 2, 2, True, salt, nmax, special=f"det:{k}")
+                guarded(ctx, check_qt, ctx, kind, flag, 2, 2, True, salt, nmax, special=f"det:{k}")
+    # nearly pure true state (Bloch vector (0,0,1-delta)): the covariance of the Z schedule is small, not zero
+    for k, flag in ((0, True), (1, False)):
+        salt += 1
+        guarded(ctx, check_qt, ctx, "qst", flag, 2, 2, True, salt, nmax, special=f"nearpure:{k}")
     # explicit permuted (qst: permuted subset) schedule lists with pairwise different sample sizes, all four tomographies
     for kind in KINDS:
         for flag in (True, False) if (not quick or kind in ("qst", "povmt")) else (True,):
             salt += 1
             ctx.count(f"oracle custom schedule list {kind}")
-            check_qt(ctx, kind, flag, 2, 2, False, salt, nmax, special="perm:0")
+            guarded(ctx, check_qt, ctx, kind, flag, 2, 2, False, salt, nmax, special="perm:0")
             if kind == "qst":       # all testers, permuted order
                 salt += 1
-                check_qt(ctx, kind, flag, 2, 2, False, salt, nmax, special="perm:1")
+                guarded(ctx, check_qt, ctx, kind, flag, 2, 2, False, salt, nmax, special="perm:1")
     # several DIFFERENT experiments with matA of equal shape and equal norm, back to back in this process
     for flag in (True, False):
         for i in range(len(AXES_SETS)):
             salt += 1
             ctx.count("oracle equal-norm tester sets in sequence")
-            check_qt(ctx, "qst", flag, 2, 2, False, salt, nmax, special=f"axes:{i}", joint=(i == 1 and flag))
+            guarded(ctx, check_qt, ctx, "qst", flag, 2, 2, False, salt, nmax, special=f"axes:{i}", joint=(i == 1 and flag))
     # testers with different outcome counts (property: testers with 2..4 outcomes)
     for counts in ([2, 2, 3], [2, 3, 4]):
         salt += 1
-        check_qt(ctx, "qst", True, 2, 2, False, salt, 3, counts=counts)
-    check_helpers(ctx, 900, (6 if quick else 40) * volume)
+        guarded(ctx, check_qt, ctx, "qst", True, 2, 2, False, salt, 3, counts=counts)
+    guarded(ctx, check_helpers, ctx, 900, (6 if quick else 40) * volume)
 
 
 def search(ctx):
@@ -865,6 +921,12 @@ def replay(ctx, data):
     r = data["replay"]
     print("replaying", {k: v for k, v in r.items() if k not in ("pss", "gss")})
     before = len(ctx.violations)
+    if r.get("kind") == "guarded":
+        fn = globals()[r["fn"]]
+        guarded(ctx, fn, ctx, *r["args"], **r.get("kw", {}))
+        for v in ctx.violations[before:]:
+            print(" ", v["signature"], "-", v["what"])
+        return 1 if len(ctx.violations) > before else 0
     if r["kind"] == "qt" and str(r.get("special") or "").startswith("axes"):
         # sequence clause: the failure may depend on the experiments evaluated before in the same process
         for i in range(len(AXES_SETS)):
